@@ -124,6 +124,8 @@ type world struct {
 	voteTxs map[int]interfaces.Transaction
 	props   map[int]common.Uint256
 	blkUsed common.Fixed64
+	replaced bool // a rollback has replaced Candidate objects by copies
+	seen     map[*crstate.Candidate]bool
 }
 
 var w *world
@@ -426,6 +428,21 @@ func (w *world) build(d string, used map[string]bool) interfaces.Transaction {
 	panic("harness: unknown tx " + d)
 }
 
+// noteCandidates records the identity of every Candidate object in the state and reports whether
+// one of them had never been seen before.
+func (w *world) noteCandidates() (fresh bool) {
+	if w.seen == nil {
+		w.seen = map[*crstate.Candidate]bool{}
+	}
+	for _, v := range w.cm.GetState().Candidates {
+		if !w.seen[v] {
+			fresh = true
+			w.seen[v] = true
+		}
+	}
+	return
+}
+
 func (w *world) processBlock(b blockDesc) {
 	w.height = b.height
 	blk := &types.Block{Header: ctypes.Header{Height: b.height, Timestamp: b.height * 120}, Transactions: b.txs}
@@ -660,14 +677,21 @@ func exec(t []string) string {
 		}
 		lastOffered, lastAccepted = len(t)-2, len(b.txs)
 		w.processBlock(b)
+		w.noteCandidates()
 		w.blocks = append(w.blocks, b)
 		return status(w)
 	case "rb":
 		k64, _ := strconv.Atoi(t[1])
 		k := uint32(k64)
-		// did this rollback cross a change of the committee (LastCommitteeHeight above the target)?
-		lastCrossed = w.cm.LastCommitteeHeight > k
-		if err := w.cm.RollbackTo(k); err != nil {
+		// does this rollback replace Candidate objects by copies (undo of the "new voting period /
+		// new committee" step restores a copied map)?  Closures recorded at lower heights keep
+		// pointing at the old objects.  Sticky until the world is re-synchronised.
+		err := w.cm.RollbackTo(k)
+		if w.noteCandidates() {
+			w.replaced = true // the rollback created Candidate objects no block ever created
+		}
+		lastCrossed = w.replaced
+		if err != nil {
 			return status(w) + " err"
 		}
 		fresh := newWorld(w.era)
@@ -689,6 +713,7 @@ func exec(t []string) string {
 			// continue from the direct build, so that every later comparison is an independent
 			// experiment and not the echo of this difference
 			fresh.blocks, fresh.props, fresh.nonce = w.blocks, w.props, w.nonce
+			fresh.noteCandidates()
 			w = fresh
 		}
 		return status(w)
@@ -735,15 +760,19 @@ func oracle(t []string, out string) *hx.Violation {
 	}
 	if first == "" {
 		for _, n := range fields {
-			if reportedN[n] < 3 {
+			key := n
+			if strings.HasPrefix(n, "S.Candidates[].") {
+				key = "S.Candidates[]"
+			}
+			if reportedN[key] < 3 {
 				first = n
+				reportedN[key]++
 				break
 			}
 		}
 		if first == "" {
 			return nil
 		}
-		reportedN[first]++
 	}
 	det := ""
 	for _, n := range fields {
@@ -753,7 +782,10 @@ func oracle(t []string, out string) *hx.Violation {
 	if len(det) > 1500 {
 		det = det[:1500] + "…"
 	}
-	det = fmt.Sprintf("crossed-committee-change=%v; ", lastCrossed) + det
+	det = fmt.Sprintf("candidate-objects-replaced=%v; ", lastCrossed) + det
+	if lastCrossed && strings.HasPrefix(first, "S.Candidates[].") {
+		first = "S.Candidates[]:stale-object" // one finding, whatever candidate field shows it
+	}
 	return &hx.Violation{Kind: "rollback-differs:" + first, Detail: "Committee after RollbackTo(" + t[1] + ") differs from a fresh Committee that processed only heights <= " + t[1] + ": " + det}
 }
 
@@ -761,7 +793,7 @@ func oracle(t []string, out string) *hx.Violation {
 
 func gen(g *hx.Gen) {
 	r := g.R
-	for it := 0; it < g.N(90, 2500); it++ {
+	for it := 0; it < g.N(90, 1500); it++ {
 		era := r.Intn(2)
 		g.Emit("reset %d", era)
 		h := uint32(0)
